@@ -638,8 +638,8 @@ CHECK = Check(
 )
 
 MANIFEST = {
-    "level_text": "Machine-checked Lean 4 theorems about an executable model of MultipartDecoder (hand-written leftmost matchers for the five compiled regexes, last_newline, _parse_data, next_event, MultiPartParser.parse): the hold-back kernel of DATA/DATA_START is proved chunk-independent for every buffer, continuation and chunk list; the retained search position is proved irrelevant under the explicit padding bound; and for every body made of a preamble, valid parts and an epilogue with CRLF, bare-LF or bare-CR delimiter and header lines (payloads free of the other newline kind), every chunking decodes to the same parts as the single-shot decode, and MultiPartParser.parse returns the same fields and files for every buffer size and read schedule (whole run: PREAMBLE, PART, DATA_START, DATA, EPILOGUE). The model is tied to the code by differential streams over every 2-way (thorough: 3-way) split of a corpus, byte-at-a-time and random k-way splits, and the property oracle runs on the real decoder and MultiPartParser.",
-    "level_note": "Trusted: Lean kernel; extract.py; the correspondence harness; CPython re/bytes/str for the modelled primitives. Known finding F01c (padding on the first delimiter). Whole-body chunk independence is proved for bodies with Name: value header lines, a preamble without --boundary and one line-break convention throughout (CRLF / bare LF / bare CR); preambles containing a non-delimiter --boundary, header continuations and mixed conventions are covered by the kernel theorems and the streams only (OPEN).",
+    "level_text": "Machine-checked Lean 4 theorems about an executable model of MultipartDecoder (hand-written leftmost matchers for the five compiled regexes, last_newline, _parse_data, next_event, MultiPartParser.parse): the hold-back kernel of DATA/DATA_START is proved chunk-independent for every buffer, continuation and chunk list; the retained search position is proved irrelevant under the explicit padding bound; and for every body made of a preamble (anything in which preamble_re does not match), parts with arbitrary accepted header blocks (folded lines, odd white space, any line breaks inside the block) and an epilogue, with CRLF, bare-LF or bare-CR delimiter lines (payloads free of the other newline kind), every chunking decodes to the same parts as the single-shot decode, and MultiPartParser.parse returns the same fields and files for every buffer size and read schedule (whole run: PREAMBLE, PART, DATA_START, DATA, EPILOGUE). The model is tied to the code by differential streams over every 2-way (thorough: 3-way) split of a corpus, byte-at-a-time and random k-way splits, and the property oracle runs on the real decoder and MultiPartParser.",
+    "level_note": "Trusted: Lean kernel; extract.py; the correspondence harness; CPython re/bytes/str for the modelled primitives. Known finding F01c (padding on the first delimiter). Whole-body chunk independence is proved for bodies with one line-break convention on all delimiter lines (CRLF / bare LF / bare CR) and no transport padding on them; mixed conventions between delimiter lines, padding on inner delimiter lines and header blocks starting with white space are covered by the kernel theorems and the streams only (OPEN).",
     "technique": "Lean 4 proof (induction over byte lists / chunk lists) + model/code correspondence",
     "design_ref": "DESIGN.md section 4, C01",
 }
